@@ -1,5 +1,5 @@
 # replay of a bounded stand-in violation (C16): re-run native/c16_states.py
 import sys
-print('fock pure=True: run(prog, modes=[2, 0]).state: index i of the returned state is not the i-th requested mode (quadratures [0.755, 1.11, 0.755, 1.11] vs [-0.023, -0.037, -0.023, -0.037] from the full state)')
+print('n=3 pure=True: reduced_dm([0,1,2]) differs between the gaussian and the fock representation (max 0.424)')
 print('REPLAY-VIOLATION')
 sys.exit(1)
